@@ -117,3 +117,16 @@ Definition group_of (s : pstate) : pgroup :=
   match s with PRunning g | PDone g _ _ | PDropped g => g end.
 Definition group_empty (g : pgroup) : bool := negb (pg_leader g) && Nat.eqb (pg_others g) 0.
 Definition terminal (s : pstate) : bool := match s with PRunning _ => false | _ => true end.
+
+(** ** reaping after the kill ([kill_and_reap_child_proc_group]).  The timeout and the abort arm
+    send SIGKILL to the group and then wait for the leader.  The task that collects the child's
+    output waits for the leader too once both pipes are at EOF -- at once if the child closed
+    them itself -- so either of the two gets the zombie; the one that does not gets ECHILD.
+    [tolerates_echild]: the arm takes ECHILD as "already reaped" (regenerated from the source). *)
+Inductive reaper := ReapedByArm | ReapedByCollector.
+Inductive arm_outcome := ARejected | AFailedToReap.
+Definition reap_outcome (tolerates_echild : bool) (r : reaper) : arm_outcome :=
+  match r with
+  | ReapedByArm => ARejected
+  | ReapedByCollector => if tolerates_echild then ARejected else AFailedToReap
+  end.
